@@ -124,7 +124,7 @@ Section RT.
      nested ones, items of lists, enabled or not — has all its declared keys and, when its feature flag is
      on, passes its schema validators.  This is what "the state passes validation" means once validation is
      read as applying to every configuration object (the library's own validate() skips disabled
-     sub-configurations — F36 — and items of lists — F50). ---- *)
+     sub-configurations: F36). ---- *)
   Fixpoint valid_slot (nd : node) (v : val) {struct nd} : Prop :=
     let valid_cfg := fun (dynamic : bool) (vs : list N) (fs : list (str * node)) (c : cfg) =>
       tidy fs dynamic c
@@ -152,9 +152,9 @@ Section RT.
 
   (* ---- `Normal`: the invariant of reachable states.  Every stored leaf value is a fixed point of its
      field's validate, or is rejected by it (an unset required field still holding its default None);
-     every configuration object is tidy and has all its declared keys; every item of a list of
-     configurations passed whole-configuration validation when it was put there and still does
-     (the premise the open finding F50 is about: validate() never looks at items again). ---- *)
+     every configuration object, items of lists included, is tidy and has all its declared keys.
+     (That the items of a list pass validation is no longer part of it: since the repair of F50
+     whole-configuration validation descends into list items, so it follows from `validate_errs = []`.) ---- *)
   Fixpoint normal_slot (nd : node) (v : val) {struct nd} : Prop :=
     let normal_cfg := fun (dynamic : bool) (fs : list (str * node)) (c : cfg) =>
       tidy fs dynamic c
@@ -169,12 +169,11 @@ Section RT.
     | NLeaf f, VLeaf x => lvalidate f x = Ok x \/ exists e, lvalidate f x = Err e
     | NSub dyn _ fs, VCfg c => normal_cfg dyn fs c
     | NCfgList _ _ _, VLeaf PNone => True
-    | NCfgList _ vs fs, VList l =>
+    | NCfgList _ _ fs, VList l =>
         (fix items (l : list cfg) : Prop :=
            match l with
            | [] => True
-           | it :: r => (normal_cfg false fs it
-                         /\ validate_errs F lvalidate lflag vrun (NSub false vs fs) [] (VCfg it) = []) /\ items r
+           | it :: r => normal_cfg false fs it /\ items r
            end) l
     | _, _ => False
     end.
